@@ -26,7 +26,7 @@ func RunHash(outDir string, seed int64, tier string) error {
 	defer os.RemoveAll(tmp)
 	perScheme, small := 3, true
 	if tier == "thorough" {
-		perScheme, small = 60, false
+		perScheme, small = 30, false
 	}
 	// translator cross-check: widths of the integer fields as reflect sees them
 	e.add(fmt.Sprintf("HWidth node_hash_spec \"Index\" %d", reflect.TypeOf(key.Node{}.Index).Size()), "width of key.Node.Index")
